@@ -23,6 +23,9 @@ type Case struct {
 	Meta   map[string]string `json:"meta,omitempty"`
 	Ints   map[string]int    `json:"ints,omitempty"`
 	Note   string            `json:"note,omitempty"`
+	// Seed and Tier of the run that made the case (a replay regenerates documents from them)
+	Seed uint64 `json:"seed,omitempty"`
+	Tier string `json:"tier,omitempty"`
 }
 
 func (c *Case) Key() string { return fmt.Sprintf("%s#%d", c.Family, c.Index) }
